@@ -336,7 +336,15 @@ def r4_loss_association(ctx: Context, v: CalibrateView) -> None:
             guarded = any(isinstance(x, (ast.Break, ast.Continue)) for x in ast.walk(loop)) or any(
                 isinstance(x, ast.If) and any(y is c for y in ast.walk(x)) for x in ast.walk(loop))
         ctx.check(not guarded, "R4.iteration", "Calibrator.calibrate:loss-unconditional", "every element gets a loss", "some elements can be skipped in the loss loop", v.cal, c)
-        args = [src(a) for a in c.args] + [f"{k.arg}={src(k.value)}" for k in c.keywords]
+        # names bound by the header that stand for something else than the element (`for s, r in zip(S, repeat(self.real_data))`) are read through the binding
+        from ..util import _substitute
+
+        def through(e_: ast.expr) -> str:
+            for nm_, ve_ in benv.items():
+                if nm_ not in elem_forms and src(ve_) != IDX:
+                    e_ = _substitute(e_, nm_, ve_)
+            return src(e_)
+        args = [through(a) for a in c.args] + [f"{k.arg}={through(k.value)}" for k in c.keywords]
         ok = any(args in ([el, "self.real_data"], [f"sim_data_ensemble={el}", "real_data=self.real_data"]) for el in elem_forms)
         ctx.check(ok, "R4.roles", "Calibrator.calibrate:compute_loss-args", "compute_loss(<this row's series>, self.real_data)",
                   f"compute_loss called with {args}", v.cal, c)
